@@ -380,16 +380,28 @@ where
         new_cells.push(cell_key);
     }
 
+    verif_failpoint!(
+        "flip.after_insert_cells",
+        crate::verif_hooks::flip_err("flip.after_insert_cells")
+    );
     let boundary_facets =
         extract_cavity_boundary(tds, removed_cells).map_err(|e| FlipError::NeighborWiring {
             message: format!("flip boundary extraction failed: {e}"),
         })?;
 
+    verif_failpoint!(
+        "flip.boundary",
+        crate::verif_hooks::flip_err("flip.boundary")
+    );
     let external_facets = external_facets_for_boundary(tds, removed_cells, &boundary_facets)
         .map_err(|e| FlipError::NeighborWiring {
             message: e.to_string(),
         })?;
 
+    verif_failpoint!(
+        "flip.external",
+        crate::verif_hooks::flip_err("flip.external")
+    );
     wire_cavity_neighbors(
         tds,
         &new_cells,
@@ -400,7 +412,12 @@ where
         message: e.to_string(),
     })?;
 
+    verif_failpoint!("flip.wire", crate::verif_hooks::flip_err("flip.wire"));
     tds.remove_cells_by_keys(removed_cells);
+    verif_failpoint!(
+        "flip.remove_cells",
+        crate::verif_hooks::flip_err("flip.remove_cells")
+    );
     tds.normalize_coherent_orientation()
         .map_err(|e| FlipError::TdsMutation {
             message: e.to_string(),
@@ -2911,6 +2928,10 @@ where
     U: DataType,
     V: DataType,
 {
+    verif_failpoint!(
+        "repair.postcondition",
+        crate::verif_hooks::repair_err("repair.postcondition")
+    );
     let config = RepairAttemptConfig {
         attempt: 0,
         queue_order: RepairQueueOrder::Fifo,
